@@ -179,6 +179,12 @@ func (u *Unit) globalAxioms(st *State) {
 
 func (u *Unit) topReturn(st *State, fr *Frame, res []Val) {
 	u.paths++
+	// vacuity guard: branches are pruned by feasibility, so a return reached with an
+	// unsatisfiable path condition means contradictory assumptions were made
+	if u.check(st) == "unsat" {
+		u.errs = append(u.errs, "vacuity: a path reaching return has an unsatisfiable path condition (contradictory assumed contract?) trace: "+strings.Join(st.Trace, " "))
+		return
+	}
 	u.returns++
 	if u.C == nil {
 		return
